@@ -83,7 +83,7 @@ def main():
         # 4. the checks
         meta["checks"] = {}
         for c in checks:
-            env = dict(os.environ, VERIF_REPO=patched, VERIF_SHRINK_S="20", VERIF_REPLAY_DIR=os.path.join(scratch, "replays"))
+            env = dict(os.environ, VERIF_REPO=patched, VERIF_SHRINK_S="20", VERIF_BUDGET_S="3000", VERIF_REPLAY_DIR=os.path.join(scratch, "replays"))
             cp = sh([PY, os.path.join(V, "check.py"), c, "--tier", "quick", "--no-evidence"], env=env, timeout=3600)
             viol = [l for l in cp.stdout.splitlines() if l.startswith("VIOLATION property=")]
             clause = [l for l in cp.stdout.splitlines() if l.startswith("minimised after") or l.startswith("violation in run")]
